@@ -28,6 +28,8 @@ EXTENDS Integers, Sequences, FiniteSets, TLC, Json, Bitwise
 
 CONSTANTS Theme,     \* which alphabet of calls is enumerated (see Calls)
           MaxFd,     \* descriptors 0 .. MaxFd
+          MaxLen,    \* bound on file length / pipe fill (a bound of the model, not of POSIX)
+          MaxPipe,   \* number of anonymous pipes alive at a time
           MaxH       \* bound on the history length (generator configs)
 
 VARIABLES S,         \* the kernel state of the process (a record, see Init0)
@@ -42,8 +44,7 @@ view == S
 FdRange == 0 .. MaxFd
 MaxOfd  == MaxFd + 1
 OfdIds  == 1 .. MaxOfd
-PipeIds == 0 .. 2            \* 0 is the named FIFO "p"; 1, 2 anonymous pipes
-MaxLen  == 6                 \* bound on file length / pipe fill (model bound)
+PipeIds == 0 .. MaxPipe      \* 0 is the named FIFO "p"; the others anonymous pipes
 AllSigs == {"USR1", "PIPE", "CHLD"}
 DefIgn(sig) == sig = "CHLD"  \* default action "ignore" (XBD signal.h); others terminate
 
@@ -538,8 +539,7 @@ PathArgs == { <<"f">>, <<"d">>, <<"n">>, <<"l">>, <<"ld">>, <<"lx">>, <<"p">>, <
 
 CallsPath(St) ==
      { COpen(p, m[1], m[2]) : p \in PathArgs \ { <<"p">> },
-                              m \in { <<"R", {}>>, <<"W", {"C", "T"}>>, <<"W", {"C", "X"}>>, <<"RW", {"C"}>>,
-                                      <<"R", {"D"}>>, <<"R", {"F"}>> } }
+                              m \in { <<"R", {}>>, <<"W", {"C", "T"}>>, <<"W", {"C", "X"}>>, <<"RW", {"C"}>> } }
   \cup { [op |-> "statat", path |-> p, follow |-> b] : p \in PathArgs, b \in BOOLEAN }
   \cup { [op |-> "chdir", path |-> p] : p \in PathArgs }
   \cup { [op |-> "opendir", path |-> p] : p \in PathArgs }
@@ -547,6 +547,15 @@ CallsPath(St) ==
   \cup { [op |-> "umask", m |-> m] : m \in {0, 63, 18} }             \* 000, 077, 022
   \cup { [op |-> "fstat", fd |-> x] : x \in FdArgs(St, FALSE) }
   \cup { [op |-> "close", fd |-> x] : x \in FdArgs(St, FALSE) }
+
+\* file creation under a umask
+CallsMode(St) ==
+     { COpen(p, m[1], m[2]) : p \in { <<"n">>, <<"d", "n">>, <<"lx">>, <<"f">> },
+                              m \in { <<"W", {"C", "T"}>>, <<"W", {"C", "X"}>>, <<"RW", {"C"}>>, <<"W", {"C", "A"}>> } }
+  \cup { [op |-> "umask", m |-> m] : m \in {0, 63, 23, 18} }         \* 000, 077, 027, 022
+  \cup { [op |-> "statat", path |-> p, follow |-> TRUE] : p \in { <<"n">>, <<"d", "n">>, <<"f">> } }
+  \cup { [op |-> "fstat", fd |-> x] : x \in FdArgs(St, FALSE) }
+  \cup { [op |-> "chdir", path |-> <<"d">>] }
 
 CallsPipe(St) ==
      { [op |-> "pipe"] }
@@ -575,6 +584,7 @@ Calls(St) ==
   ELSE CASE Theme = "rw"   -> CallsRW(St)
          [] Theme = "fd"   -> CallsFD(St)
          [] Theme = "path" -> CallsPath(St)
+         [] Theme = "mode" -> CallsMode(St)
          [] Theme = "pipe" -> CallsPipe(St)
          [] Theme = "sig"  -> CallsSig(St)
 
